@@ -67,7 +67,7 @@ func main() {
 		if os.Getenv("HL_RULESET") == "round14" {
 			// sweep of the negative controls for the rules added or widened in round 14 only (one pseudo property)
 			ids = []string{"C10"}
-			specs["C10"] = &PropSpec{ID: "C10", Rules: []func(*Ctx){ruleAncestorWalk, ruleParserAlias, ruleStaleIndex, ruleIndent, ruleTokenOrder, ruleLoaderCycle, ruleLoaderCache, rulePrefixGuard, ruleNilVsEmpty}}
+			specs["C10"] = &PropSpec{ID: "C10", Rules: []func(*Ctx){ruleAncestorWalk, ruleParserAlias, ruleStaleIndex, ruleIndent, ruleTokenOrder, ruleLoaderCycle, ruleLoaderCache, rulePrefixGuard, ruleNilVsEmpty, ruleFormatterAssertionIndependent, ruleOptionalDeref}}
 		}
 		worst := 0
 		for _, id := range ids {
